@@ -779,6 +779,11 @@ class Class(Node):
             or self.statements
             or self.initial_statements
             or self.functions
+            or self.encapsulated
+            or self.partial
+            or self.final
+            or self.comment
+            or self.annotation
         )
 
     def _extend(self, other: "Class") -> None:
